@@ -700,7 +700,7 @@ func (fr *Frame) keyInModifies(k string) bool {
 func (fr *Frame) frameInv(k string, st *State) *Term {
 	srt := heapSorts[k]
 	q := BoundVar("r", SInt)
-	return Forall([]*Term{q}, Implies(And(Le(Num(0), q), Lt(q, fr.Entry.Alloc)), Eq(Select(st.heapGet(k, srt), q), Select(fr.Entry.heapGet(k, srt), q))))
+	return Forall([]*Term{q}, Implies(Lt(q, fr.Entry.Alloc), Eq(Select(st.heapGet(k, srt), q), Select(fr.Entry.heapGet(k, srt), q))))
 }
 
 // rangeIndexPattern recognises the header of `for i := range slice` (load rangeindex; +1; store; compare with len) and
@@ -1475,7 +1475,7 @@ func (fr *Frame) indexAddr(st *State, x *ssa.IndexAddr) *Val {
 	switch bt := under(x.X.Type()).(type) {
 	case *types.Slice:
 		fr.checkBounds(st, i, base.Len, "slice index", x.Pos())
-		return &Val{K: KPtr, T: x.Type(), X: base.X, Root: "S:" + tstr(bt.Elem()), Idx: Add(base.Off, i)}
+		return &Val{K: KPtr, T: x.Type(), X: base.X, Root: "S:" + tstr(bt.Elem()), Idx: SliceIdx(base.Off, i)}
 	case *types.Pointer:
 		arr := under(bt.Elem()).(*types.Array)
 		fr.checkBounds(st, i, Num(arr.Len()), "array index", x.Pos())
@@ -1682,6 +1682,9 @@ func (fr *Frame) mapLoadVal(st *State, root string, ks *Sort, ref, kt *Term, et 
 	}
 	arr := st.heapGet(root+"#val"+path, SArr(SInt, SArr(ks, sortOf(et))))
 	x := Select(Select(arr, ref), kt)
+	if k := kindOf(et); (k == KPtr || k == KIface || k == KMap) && x.Op == "select" {
+		addTypeFact(Lt(x, st.Alloc))
+	}
 	if kindOf(et) == KPtr {
 		return mkPtr(et, x)
 	}
